@@ -12,7 +12,8 @@ import json, os, re, collections
 import vf
 
 PARTS = ["Murmur3Partitioner", "OrderedPartitioner", "RandomPartitioner"]
-DEV_WORKERS = int(os.environ.get("VERIF_TLC_WORKERS", "0")) or None
+DEV_WORKERS = int(os.environ.get("VERIF_TLC_WORKERS", "0")) or None   # None: all cores (the exhaustive generator pass)
+VAL_WORKERS = DEV_WORKERS or min(8, vf.NCPU)                             # vector validation passes
 
 
 def harness_dirs(d):
@@ -88,7 +89,7 @@ def validate_vectors(ctx, name, vectors, timeout):
         return {}, None
     p = os.path.join(ctx.tmp, "vec_%s.ndjson" % name)
     vf.write_ndjson(p, vectors)
-    r = vf.run_tlc(ctx, "Trace_Topology", "Trace_Topology.cfg", workers=DEV_WORKERS, heap="6g", timeout=timeout,
+    r = vf.run_tlc(ctx, "Trace_Topology", "Trace_Topology.cfg", workers=VAL_WORKERS, heap="6g", timeout=timeout,
                    env={"VF_TRACE": p}, deadlock=False, name="vectors_" + name)
     if not r.ok:
         raise vf.Inconclusive("vector validation failed to run (%s): %s\n%s" % (name, r.error or r.violated, r.out[-2500:]))
@@ -120,10 +121,39 @@ def report(ctx, verdicts, vecs_by_key, origin):
     return groups
 
 
+def replay(ctx):
+    """bin/check C10 --replay FILE: re-execute the vectors of a replay file on the current tree and
+    let TLC judge the new output."""
+    rep = json.load(open(ctx.replay))
+    vecs = []
+    for v in rep.get("violations", []):
+        d = v.get("detail") or {}
+        vecs += [d["vector"]] + list(d.get("more", []))
+    if not vecs:
+        raise vf.Inconclusive("no vectors in %s" % ctx.replay)
+    cases = [dict(id=i + 1, ring=v["ring"], dc=v["dc"], rack=v["rack"], strat=v["strat"], rfdc=v["rfdc"], rfn=v["rfn"],
+                  tokens=v["tokens"], look=[[e["t"]] for e in v["look"]] or [[t] for t in v["tokens"]], form=v["form"],
+                  parts=[v["part"]]) for i, v in enumerate(vecs)]
+    cp, rp = os.path.join(ctx.tmp, "cases.ndjson"), os.path.join(ctx.tmp, "results.ndjson")
+    vf.write_ndjson(cp, cases)
+    binary = vf.build_gotest(ctx, ".", harness_dirs("c10"))
+    rc, out = vf.run_gotest(ctx, binary, "^TestVfC10Cases$", env={"VF_CASES": cp, "VF_RESULTS": rp}, timeout=300)
+    if rc != 0 or "VFSUMMARY" not in out:
+        raise vf.Inconclusive("case driver failed (rc=%s):\n%s" % (rc, out[-3000:]))
+    real = vf.read_ndjson(rp)
+    verdicts, tr = validate_vectors(ctx, "replay", real, 300)
+    groups = report(ctx, verdicts, {(v["id"], v["part"]): v for v in real}, "replayed vectors")
+    ctx.log("replayed %d vectors: %s" % (len(real), {k: len(v) for k, v in groups.items()}))
+    ctx.cov = dict(states=tr.distinct, transitions=tr.generated, traces_validated_against_impl=len(real),
+                   replay_of=ctx.replay, samples=[real[0]])
+
+
 def run(ctx):
     quick = ctx.tier == "quick"
     ctx.level = "model_checking"
     seed = ctx.seed
+    if getattr(ctx, "replay", None):
+        return replay(ctx)
 
     # ---- 1. model pass + case generation (one TLC state per case)
     cfg = "Gen_Topology_quick.cfg" if quick else "Gen_Topology_thorough.cfg"
